@@ -27,11 +27,14 @@ PY = build.PY
 
 
 def load_known(prop):
-    p = os.path.join(VERIF, "known_findings.json")
-    if not os.path.exists(p):
-        return []
-    data = json.load(open(p))
-    return [k for k in data.get("findings", []) if k["property"] == prop]
+    out = []
+    for p in (os.path.join(VERIF, "known_findings.json"),
+              os.path.join(VERIF, "known_findings.d", prop + ".json")):
+        if os.path.exists(p):
+            data = json.load(open(p))
+            out += [k for k in data.get("findings", [])
+                    if k["property"] == prop]
+    return out
 
 
 def worker_env(flavour, bdir):
